@@ -1,5 +1,6 @@
 """C05 -- let substitution (with overrides) preserves meaning in the chosen environment."""
 from .. import sx, gen, lib, meaning as M, monitors, minimise
+from . import execcommon as X
 from .common import header_diff, native_names, prog_features, sig, case_prog
 
 RULE = ("random programs using constants as gate argument, qubit index, register size, alias start/stop/step/index, loop "
@@ -11,7 +12,7 @@ RULE = ("random programs using constants as gate argument, qubit index, register
 ASSUMPTIONS = ["reference let evaluation in vf/meaning.py", "override values are numbers; overrides that the reference "
                "semantics finds out of range are not judged here (C14)"]
 TIERS = {"quick": {"shards": 8, "budget_s": 75}, "thorough": {"shards": 16, "budget_s": 300}}
-REQUIRE = {"via-parser-expand-let-map": 500, "calls-after-earlier-calls-on-same-object": 500, "override-used": 200, "let-sized-register": 100, "let-bound-map": 100, "shadowed-let-in-macro": 20,
+REQUIRE = {"gate-set-in-force": 3000, "via-parser-expand-let-map": 500, "calls-after-earlier-calls-on-same-object": 500, "override-used": 200, "let-sized-register": 100, "let-bound-map": 100, "shadowed-let-in-macro": 20,
            "via-parser": 100, "let-count": 100}
 
 
@@ -36,7 +37,9 @@ def judge(case):
     if not sx.legal_nesting(prog):
         return "skipped:illegal-nesting", []
     text = sx.to_text(prog)
-    o = lib.outcome(lib.parse, text)
+    # with a gate set in force every build (the parse, each rebuild by a pass) works with the same definition objects
+    native = X.native() if case.get("native") else None
+    o = lib.outcome(lib.parse, text, native)
     if o[0] != "ok":
         return "skipped:input-rejected:" + o[1], []
     c = o[1]
@@ -55,9 +58,9 @@ def judge(case):
     if via_parser and case.get("via_parser") == "map":
         # the parser asked to substitute lets AND aliases (expand_let_map=True) under the overrides: every reference of the
         # result is on the fundamental register and denotes the qubit the overridden program denotes
-        o = lib.outcome(lib.parse, text, expand_let_map=True, override_dict=dict(ov) or None)
+        o = lib.outcome(lib.parse, text, native, expand_let_map=True, override_dict=dict(ov) or None)
         if o[0] == "jaqal":
-            o1 = lib.outcome(lib.parse, text, expand_let=True, override_dict=dict(ov) or None)
+            o1 = lib.outcome(lib.parse, text, native, expand_let=True, override_dict=dict(ov) or None)
             if o1[0] == "ok":
                 return "skipped:fill_in_map-precondition", []
             return "ok", [("rejected-valid-program:expand_let_map", {"error": o[2], "ov": ov})]
@@ -82,7 +85,7 @@ def judge(case):
         passed = dict(ov)
     before = dict(passed)
     if via_parser:
-        o = lib.outcome(lib.parse, text, expand_let=True, override_dict=passed or None)
+        o = lib.outcome(lib.parse, text, native, expand_let=True, override_dict=passed or None)
     else:
         o = lib.outcome(lib.fill_in_let, c, passed or None)
     if passed != before or list(passed) != list(before):
@@ -214,7 +217,7 @@ def process(ctx, case, seen):
         if clause == "override-dictionary-modified":
             rec.violation(sig("C05", clause), detail, {k: v for k, v in case.items() if k != "_shared_dict"})
             continue
-        base = {"ov": case.get("ov"), "via_parser": case.get("via_parser")}
+        base = {"ov": case.get("ov"), "via_parser": case.get("via_parser"), "native": case.get("native")}
         if case.get("prior"):
             base["prior"] = case["prior"]
             if clause in _clauses(dict(base, prog=prog, prior=[])):
@@ -232,6 +235,8 @@ def process(ctx, case, seen):
             feats.add("override")
         if small_case.get("prior"):
             feats.add("after-earlier-calls-on-same-object")
+        if small_case.get("native"):
+            feats.add("gate-set-in-force")
         rec.violation(sig("C05", clause, feats), d2[0][1] if d2 else detail, small_case)
 
 
@@ -249,10 +254,19 @@ def shard(ctx):
                         p_let_count=0.6, p_let_index=0.5, p_let_arg=0.5, wild_numbers=rng.random() < 0.3, p_sub_count=0.7,
                         allow_reg_args=rng.random() < 0.5, p_qualified_twin=0.25)
         prog = g.program()
+        use_native = i % 4 == 0
+        if use_native:
+            # programs over the harness gate set, parsed with that gate set in force
+            g = gen.ExecGen(rng, n_lets=(1, 5), n_maps=(1, 4), n_macros=(0, 3), max_depth=rng.choice([2, 3]), p_shadow=rng.choice([0.3, 0.8]),
+                            p_let_reg=0.5, p_let_count=0.6, p_let_index=0.5, p_let_arg=0.5, p_sub_count=0.7, macro_sub=rng.random() < 0.3)
+            prog = g.program()
         earlier = []
         for attempt in range(3):
             ov = make_override(rng, prog) if rng.random() < 0.8 else {}
             case = {"prog": prog, "ov": ov, "via_parser": rng.random() < 0.3}
+            if use_native:
+                case["native"] = True
+                rec.count("gate-set-in-force")
             if case["via_parser"] and rng.random() < 0.4:
                 case["via_parser"] = "map"
                 rec.count("via-parser-expand-let-map")
